@@ -74,14 +74,14 @@ set_option linter.unusedSectionVars false
     s.step be (.call t (.set v) c k kw) = s.put (c, be.regionOf kw, k) ⟨v, t, .manual⟩ := rfl
 @[simp] theorem step_inv (be : Backend R) (s : Spec R) (t : Nat) (c k : Str) (kw : Kw) :
     s.step be (.call t .inv c k kw) = s.del (c, be.regionOf kw, k) := rfl
-@[simp] theorem step_created (be : Backend R) (s : Spec R) (t : Nat) (f : Str) (K : Key R) (v : Str) (env : Env) :
-    s.step be (.created t f K v env) = s.put K ⟨v, t, .creation f env⟩ := rfl
+@[simp] theorem step_created (be : Backend R) (s : Spec R) (t : Nat) (f : Str) (K : Key R) (v : Str) (c : Creation R) :
+    s.step be (.created t f K v c) = s.put K ⟨v, t, .creation c⟩ := rfl
 @[simp] theorem step_enabledSet (be : Backend R) (s : Spec R) (t : Nat) (b : Bool) :
     s.step be (.enabledSet t b) = { s with enabled := fun t' => if t' = t then b else s.enabled t' } := rfl
 
-@[simp] theorem spec_put_store (s : Spec R) (K K' : Key R) (e : Entry) :
+@[simp] theorem spec_put_store (s : Spec R) (K K' : Key R) (e : Entry R) :
     (s.put K e).store K' = if K' = K then some e else s.store K' := rfl
-@[simp] theorem spec_put_enabled (s : Spec R) (K : Key R) (e : Entry) : (s.put K e).enabled = s.enabled := rfl
+@[simp] theorem spec_put_enabled (s : Spec R) (K : Key R) (e : Entry R) : (s.put K e).enabled = s.enabled := rfl
 @[simp] theorem spec_del_store (s : Spec R) (K K' : Key R) :
     (s.del K).store K' = if K' = K then none else s.store K' := rfl
 @[simp] theorem spec_del_enabled (s : Spec R) (K : Key R) : (s.del K).enabled = s.enabled := rfl
@@ -129,7 +129,7 @@ theorem sync_preserved (w : World R) (P : Params R) (T : Items) : Preserved P T 
     cases he : (replay w st.trace).store (backendKey P st h env') with
     | none => simp [evRuns, hi.runs, ← hen', hen, he]
     | some e => simp [he] at hst
-  · intro st h env' r key v _ hi
+  · intro st0 h body env' r key _ hi
     refine ⟨?_, by simpa using hi.enabled, by simpa [evRuns] using hi.runs, by simpa [evReplay] using hi.rep⟩
     intro K
     by_cases hK : K = (cid P.tm, r, key)
@@ -238,7 +238,7 @@ theorem own_preserved (w : World R) (P : Params R) (T : Items) (hd : IdsDistinct
     simpa [evOwn] using hi.own
   · intro st h env' _ hi _ _
     exact ⟨by simpa using hi.owned, by simpa [evOwn] using hi.own⟩
-  · intro st h env' r key v _ hi
+  · intro st0 h body env' r key _ hi
     refine ⟨?_, by simpa [evOwn] using hi.own⟩
     intro K e
     simp only [emit_trace, put_trace, replay_cons, step_created, spec_put_store]
@@ -379,7 +379,7 @@ theorem regMono_preserved (P : Params R) (T : Items) (st0 : St R) : Preserved P 
     split
     · rename_i ht; subst ht; exact getCacheKw_mono _ _ _ _ _ _ this
     · exact this
-  · intro st h env' r key v _ hi; exact hi
+  · intro st0 h body env' r key _ hi; exact hi
 
 theorem invalidateCore_regMono (be : Backend R) (tm : Tmpl) (t : Nat) (st0 st : St R) (key : Str) (kw : Kw) (d : Str)
     (hi : RegMono st0 st) : RegMono st0 (invalidateCore be tm t st key kw d) := by
@@ -474,7 +474,7 @@ theorem memo_preserved (w : World R) (P : Params R) (htm : w.tmpls[P.tid]? = som
     exact key st h env' hh hi t tm d r ht (by simpa using hr)
   · intro st h env' hh hi _ _ t tm d r ht hr
     exact key st h env' hh hi t tm d r ht (by simpa using hr)
-  · intro st h env' r key v _ hi; exact hi
+  · intro st0 h body env' r key _ hi; exact hi
 
 theorem step_memo (w : World R) (st : St R) (op : Op) (hop : op.isCallableInvalidation = false)
     (hi : MemoFromRender w st) : MemoFromRender w (step w st op).2 := by
@@ -523,5 +523,285 @@ theorem runFrom_memo (w : World R) (ops : List Op) (hops : ∀ op ∈ ops, op.is
     intro st hi
     simp only [runFrom]
     exact ih (fun o ho => hops o (by simp [ho])) _ (step_memo w st op (hops op (by simp)) hi)
+
+/-! ### a render's result depends on store / flags / memos only (not on the trace) -/
+
+structure SnapEq (a b : St R) : Prop where
+  store : a.store = b.store
+  enabled : a.enabled = b.enabled
+  regions : a.regions = b.regions
+
+theorem snapEq_toSt (st : St R) : SnapEq st st.snap.toSt := ⟨rfl, rfl, rfl⟩
+
+theorem snapEq_emit (a b : St R) (x y : Ev R) (h : SnapEq a b) : SnapEq (a.emit x) (b.emit y) :=
+  ⟨h.store, h.enabled, h.regions⟩
+
+theorem snapEq_put (a b : St R) (K : Key R) (v : Str) (h : SnapEq a b) : SnapEq (a.put K v) (b.put K v) :=
+  ⟨by funext K'; simp [h.store], h.enabled, h.regions⟩
+
+theorem backendKey_snap (P : Params R) (a b : St R) (h : Hdr) (env' : Env) (hs : SnapEq a b) :
+    backendKey P a h env' = backendKey P b h env' := by
+  simp [backendKey, hs.regions]
+
+theorem snapEq_afterCall (P : Params R) (a b : St R) (h : Hdr) (env' : Env) (hs : SnapEq a b) :
+    SnapEq (afterCall P a h env') (afterCall P b h env') :=
+  ⟨hs.store, hs.enabled, by funext t; simp [hs.regions]⟩
+
+theorem run_snap (P : Params R) : ∀ (its : Items) (env : Env) (a b : St R), SnapEq a b →
+    (run P env its a).1 = (run P env its b).1 ∧ SnapEq (run P env its a).2 (run P env its b).2 := by
+  intro its
+  induction its with
+  | nil => intro env a b h; simpa [run] using h
+  | text s rest ih => intro env a b h; have := ih env a b h; simp [run, this.1, this.2]
+  | var x rest ih => intro env a b h; have := ih env a b h; simp [run, this.1, this.2]
+  | tick t rest ih => intro env a b h; simpa [run] using ih env _ _ (snapEq_emit a b _ _ h)
+  | inv h arg site body rest ihb ihr =>
+    intro env a b hs
+    have hK := backendKey_snap P a b h (scope P h env arg) hs
+    have cont : ∀ (stA stB : St R) (vA vB : Str), vA = vB → SnapEq stA stB →
+        (deliver h site vA ++ (run P env rest stA).1 = deliver h site vB ++ (run P env rest stB).1) ∧
+        SnapEq (run P env rest stA).2 (run P env rest stB).2 := by
+      intro stA stB vA vB hv hse
+      subst hv
+      have := ihr env stA stB hse
+      exact ⟨by rw [this.1], this.2⟩
+    have done : ∀ (x y : St R) (Kx Ky : Key R) (vx vy : Str) (ex ey : Ev R), SnapEq x y → Kx = Ky → vx = vy →
+        SnapEq ((x.put Kx vx).emit ex) ((y.put Ky vy).emit ey) := by
+      intro x y Kx Ky vx vy ex ey hxy hk hv
+      subst hk; subst hv
+      exact snapEq_emit _ _ _ _ (snapEq_put _ _ _ _ hxy)
+    by_cases hc : h.cached = true
+    · by_cases hen : a.enabled P.tid = true
+      · have henb : b.enabled P.tid = true := by rw [← hs.enabled]; exact hen
+        cases hst : a.store (backendKey P a h (scope P h env arg)) with
+        | some v =>
+          have hstb : b.store (backendKey P b h (scope P h env arg)) = some v := by rw [← hK, ← hs.store]; exact hst
+          rw [run_inv_hit P env h arg site body rest a v hc hen hst, run_inv_hit P env h arg site body rest b v hc henb hstb]
+          exact cont _ _ v v rfl (snapEq_emit _ _ _ _ (snapEq_afterCall P a b h (scope P h env arg) hs))
+        | none =>
+          have hstb : b.store (backendKey P b h (scope P h env arg)) = none := by rw [← hK, ← hs.store]; exact hst
+          rw [run_inv_miss P env h arg site body rest a hc hen hst, run_inv_miss P env h arg site body rest b hc henb hstb]
+          have hb := ihb (scope P h env arg) _ _ (snapEq_emit _ _
+            (.enter P.tid (fname h) (backendKey P a h (scope P h env arg)) .miss)
+            (.enter P.tid (fname h) (backendKey P b h (scope P h env arg)) .miss)
+            (snapEq_afterCall P a b h (scope P h env arg) hs))
+          exact cont _ _ _ _ (by rw [hb.1]) (done _ _ _ _ _ _ _ _ hb.2 hK (by rw [hb.1]))
+      · have hen' : a.enabled P.tid = false := by simpa using hen
+        have henb : b.enabled P.tid = false := by rw [← hs.enabled]; exact hen'
+        rw [run_inv_disabled P env h arg site body rest a hc hen', run_inv_disabled P env h arg site body rest b hc henb]
+        have hb := ihb (scope P h env arg) _ _ (snapEq_emit a b (.bypass P.tid (fname h)) (.bypass P.tid (fname h)) hs)
+        exact cont _ _ _ _ (by rw [hb.1]) hb.2
+    · have hc' : h.cached = false := by simpa using hc
+      rw [run_inv_uncached P env h arg site body rest a hc', run_inv_uncached P env h arg site body rest b hc']
+      have hb := ihb (scope P h env arg) _ _ hs
+      exact cont _ _ _ _ (by rw [hb.1]) hb.2
+
+/-- the value of the uncached section is the same from the state and from its bare snapshot -/
+theorem sectionValue_snap (P : Params R) (env' : Env) (h : Hdr) (body : Items) (st : St R) :
+    sectionValue P env' h body st.snap.toSt = sectionValue P env' h body st := by
+  unfold sectionValue
+  rw [(run_snap P body env' st st.snap.toSt (snapEq_toSt st)).1]
+
+/-! ### provenance: every entry put by a creation function holds the uncached output recorded with it -/
+
+@[simp] theorem traceAllP_nil (w : World R) (chk : Spec R → Ev R → Prop) : traceAllP w chk [] = True := rfl
+@[simp] theorem traceAllP_cons (w : World R) (chk : Spec R → Ev R → Prop) (e : Ev R) (tr : List (Ev R)) :
+    traceAllP w chk (e :: tr) = (chk (replay w tr) e ∧ traceAllP w chk tr) := rfl
+
+def ProvOK (w : World R) (s : Spec R) : Prop :=
+  ∀ K e, s.store K = some e →
+    match e.prov with
+    | .manual => True
+    | .creation c => ∃ tm, w.tmpls[e.owner]? = some tm ∧
+        e.val = sectionValue ⟨w.be, tm, e.owner, c.ctx⟩ c.env c.h c.body c.pre.toSt
+
+structure ProvInv (w : World R) (st : St R) : Prop where
+  sync : Sync w st
+  prov : ProvOK w (replay w st.trace)
+  chk : traceAllP w (evCreation w) st.trace
+
+theorem prov_init (w : World R) : ProvInv w (St.init w) :=
+  ⟨sync_init w, fun K e h => by simp [St.init, Spec.init] at h, by simp [St.init]⟩
+
+theorem prov_preserved (w : World R) (P : Params R) (T : Items) (hbe : P.be = w.be)
+    (htm : w.tmpls[P.tid]? = some P.tm) : Preserved P T (ProvInv w) := by
+  have hs := sync_preserved w P T
+  constructor
+  · intro st t hi
+    exact ⟨hs.tick st t hi.sync, by simpa using hi.prov, by simpa [evCreation] using hi.chk⟩
+  · intro st h hh hi hen
+    exact ⟨hs.bypass st h hh hi.sync hen, by simpa using hi.prov, by simpa [evCreation] using hi.chk⟩
+  · intro st h env' v hh hi hen hst
+    refine ⟨hs.hit st h env' v hh hi.sync hen hst, by simpa using hi.prov, ?_⟩
+    simp only [emit_trace, afterCall_trace, traceAllP_cons, replay_cons, step_goc]
+    refine ⟨?_, by simp [evCreation], hi.chk⟩
+    have h1 := hi.sync.store (backendKey P st h env')
+    rw [hst] at h1
+    cases he : (replay w st.trace).store (backendKey P st h env') with
+    | none => simp [he] at h1
+    | some e =>
+      simp [he] at h1
+      refine ⟨e, he, h1.symm, ?_⟩
+      have := hi.prov _ e he
+      rw [← h1] at this
+      exact this
+  · intro st h env' hh hi hen hst
+    exact ⟨hs.miss st h env' hh hi.sync hen hst, by simpa using hi.prov, by simpa [evCreation] using hi.chk⟩
+  · intro st0 h body env' r key hh hi
+    refine ⟨hs.created st0 h body env' r key hh hi.sync, ?_, by simpa [evCreation] using hi.chk⟩
+    intro K e
+    simp only [emit_trace, put_trace, replay_cons, step_created, spec_put_store]
+    split
+    · intro he
+      cases he
+      refine ⟨P.tm, htm, ?_⟩
+      have : (⟨w.be, P.tm, P.tid, P.ctx⟩ : Params R) = P := by cases P; simp_all
+      simp only [this]
+      rw [sectionValue_snap]
+      rfl
+    · exact hi.prov K e
+
+theorem step_prov (w : World R) (st : St R) (op : Op) (hi : ProvInv w st) : ProvInv w (step w st op).2 := by
+  have hsy := step_sync w st op hi.sync
+  cases op with
+  | render t c =>
+    simp only [step]
+    cases ht : w.tmpls[t]? with
+    | none => simpa using hi
+    | some tm =>
+      exact run_preserves ⟨w.be, tm, t, c⟩ tm.tree (ProvInv w) (prov_preserved w _ _ rfl ht) _ c st (fun _ hh => hh) hi
+  | invalidateBody t =>
+    simp only [step] at hsy ⊢
+    cases ht : w.tmpls[t]? with
+    | none => simpa using hi
+    | some tm =>
+      simp only [ht] at hsy
+      refine ⟨hsy, ?_, by simpa [invalidateCore, evCreation] using hi.chk⟩
+      intro K e
+      simp only [invalidateCore, del_trace, emit_trace, setRegions_trace, replay_cons, step_inv, spec_del_store]
+      split
+      · intro he; cases he
+      · exact hi.prov K e
+  | invalidateDef t d =>
+    simp only [step] at hsy ⊢
+    cases ht : w.tmpls[t]? with
+    | none => simpa using hi
+    | some tm =>
+      simp only [ht] at hsy
+      refine ⟨hsy, ?_, by simpa [invalidateCore, evCreation] using hi.chk⟩
+      intro K e
+      simp only [invalidateCore, del_trace, emit_trace, setRegions_trace, replay_cons, step_inv, spec_del_store]
+      split
+      · intro he; cases he
+      · exact hi.prov K e
+  | invalidateClosure t d =>
+    simp only [step] at hsy ⊢
+    cases ht : w.tmpls[t]? with
+    | none => simpa using hi
+    | some tm =>
+      simp only [ht] at hsy
+      refine ⟨hsy, ?_, by simpa [invalidateCore, evCreation] using hi.chk⟩
+      intro K e
+      simp only [invalidateCore, del_trace, emit_trace, setRegions_trace, replay_cons, step_inv, spec_del_store]
+      split
+      · intro he; cases he
+      · exact hi.prov K e
+  | invalidate t k kw =>
+    simp only [step] at hsy ⊢
+    cases ht : w.tmpls[t]? with
+    | none => simpa using hi
+    | some tm =>
+      simp only [ht] at hsy
+      refine ⟨hsy, ?_, by simpa [invalidateCore, evCreation] using hi.chk⟩
+      intro K e
+      simp only [invalidateCore, del_trace, emit_trace, setRegions_trace, replay_cons, step_inv, spec_del_store]
+      split
+      · intro he; cases he
+      · exact hi.prov K e
+  | set t k v kw =>
+    simp only [step] at hsy ⊢
+    cases ht : w.tmpls[t]? with
+    | none => simpa using hi
+    | some tm =>
+      simp only [ht] at hsy
+      refine ⟨hsy, ?_, by simpa [evCreation] using hi.chk⟩
+      intro K e
+      simp only [put_trace, emit_trace, replay_cons, step_set, spec_put_store]
+      split
+      · intro he; cases he; trivial
+      · exact hi.prov K e
+  | get t k kw =>
+    simp only [step] at hsy ⊢
+    cases ht : w.tmpls[t]? with
+    | none => simpa using hi
+    | some tm =>
+      simp only [ht] at hsy
+      exact ⟨hsy, by simpa using hi.prov, by simpa [evCreation] using hi.chk⟩
+  | setEnabled t b =>
+    simp only [step] at hsy ⊢
+    cases ht : w.tmpls[t]? with
+    | none => simpa using hi
+    | some tm =>
+      simp only [ht] at hsy
+      refine ⟨hsy, ?_, by simpa [evCreation] using hi.chk⟩
+      intro K e
+      simpa using hi.prov K e
+
+theorem runFrom_prov (w : World R) (ops : List Op) : ∀ (st : St R), ProvInv w st → ProvInv w (runFrom w st ops) := by
+  induction ops with
+  | nil => intro st hi; simpa [runFrom] using hi
+  | cons op ops ih => intro st hi; simpa [runFrom] using ih _ (step_prov w st op hi)
+
+/-! ### memo entries come from renders when no callable is invalidated before its first render -/
+
+theorem invalidateCore_memo_late (w : World R) (tm : Tmpl) (t : Nat) (st : St R) (key d : Str)
+    (hlate : (aGet (st.regions t) d).isSome = true) (hi : MemoFromRender w st) :
+    MemoFromRender w (invalidateCore w.be tm t st key [] d) := by
+  intro t' tm' d' r ht' hr
+  simp only [invalidateCore, del_regions, emit_regions, setRegions_regions] at hr
+  split at hr
+  · rename_i htt
+    subst htt
+    rcases getCacheKw_regs tm.cacheArgs (st.regions t') d [] with h1 | ⟨_, h2, _⟩
+    · rw [h1] at hr; exact hi _ _ d' r ht' hr
+    · rw [h2] at hlate; simp at hlate
+  · exact hi _ _ d' r ht' hr
+
+theorem step_memo_late (w : World R) (st : St R) (op : Op)
+    (hop : (match op.invalidatedCallable with
+            | some (t, d) => (aGet (st.regions t) d).isSome
+            | none => true) = true)
+    (hi : MemoFromRender w st) : MemoFromRender w (step w st op).2 := by
+  cases op with
+  | invalidateBody t =>
+    simp only [step]
+    cases ht : w.tmpls[t]? with
+    | none => simpa using hi
+    | some tm => exact invalidateCore_memo_late w tm t st _ _ (by simpa [Op.invalidatedCallable] using hop) hi
+  | invalidateDef t d =>
+    simp only [step]
+    cases ht : w.tmpls[t]? with
+    | none => simpa using hi
+    | some tm => exact invalidateCore_memo_late w tm t st _ _ (by simpa [Op.invalidatedCallable] using hop) hi
+  | invalidateClosure t d =>
+    simp only [step]
+    cases ht : w.tmpls[t]? with
+    | none => simpa using hi
+    | some tm => exact invalidateCore_memo_late w tm t st _ _ (by simpa [Op.invalidatedCallable] using hop) hi
+  | render t c => exact step_memo w st _ rfl hi
+  | invalidate t k kw => exact step_memo w st _ rfl hi
+  | set t k v kw => exact step_memo w st _ rfl hi
+  | get t k kw => exact step_memo w st _ rfl hi
+  | setEnabled t b => exact step_memo w st _ rfl hi
+
+theorem runFrom_memo_late (w : World R) (ops : List Op) :
+    ∀ (st : St R), noEarlyInvalidation w st ops = true → MemoFromRender w st → MemoFromRender w (runFrom w st ops) := by
+  induction ops with
+  | nil => intro st _ hi; simpa [runFrom] using hi
+  | cons op ops ih =>
+    intro st hg hi
+    simp only [noEarlyInvalidation, Bool.and_eq_true] at hg
+    simp only [runFrom]
+    exact ih _ hg.2 (step_memo_late w st op hg.1 hi)
 
 end MakoModel.Cache
